@@ -98,6 +98,49 @@ class Oracle:
         return None
 
 
+def exhaustion(ctx):
+    """the whole identifier space through the real client: 65535 QoS 1 publishes outstanding, the next one is refused with pid_overrun,
+    one acknowledgement frees an identifier, the next publish must get exactly that identifier (overrun iff all 65535 are in use)"""
+    import random
+    import mqtt_ref as ref
+    from client_sim import Harness, Session
+    hb, hlog = build_harness("h_client")
+    if hb is None: return False
+    h = Harness(hb); s = Session(h, random.Random(ctx.seed))
+    why = None
+    try:
+        s.do("new"); s.do("cfg ka=0 cid=636c69 brokers=6c6f63616c686f7374"); s.do("run R")
+        s.reconnect(0, {})
+        s.do("pubn A 65535 1")
+        if s.sid in s.write_pending: s.wdone("ok")
+        for _ in range(4):
+            if s.sid in s.write_pending: s.wdone("ok")
+        pids = sorted(d["pid"] for _, d, _ in s.broker_seen if d["type"] == "publish")
+        ctx.count("exhaustion-publishes-on-the-wire", len(pids))
+        if pids != list(range(1, 65536)): why = f"65535 outstanding QoS 1 publishes do not use the identifiers 1..65535 exactly once (got {len(pids)} packets, {len(set(pids))} distinct)"
+        evs = s.do("pub X 1 0 74 58 -")
+        if not why and not any(e.startswith("done X client:103") for e in evs): why = f"publish with all 65535 identifiers in use was not refused with pid_overrun: {evs}"
+        k = random.Random(ctx.seed).choice([1, 2, 77, 4096, 65535])
+        if not why:
+            s.rx(ref.e_ack("puback", k, 0, []))
+            evs = s.do("pub Y 1 0 74 59 -")
+            if any(e.startswith("done Y client:103") for e in evs): why = f"pid_overrun reported although identifier {k} had been released (65534 in use)"
+            else:
+                if s.sid in s.write_pending: s.wdone("ok")
+                got = [d["pid"] for _, d, _ in s.broker_seen if d["type"] == "publish" and d["payload"] == b"Y"]
+                if got != [k]: why = f"after releasing identifier {k} the next publish used {got} (the only free identifier is {k})"
+        if s.crashed: why = f"harness died: {s.crashed}"
+    finally:
+        h.close()
+    ctx.count("exhaustion-scenarios")
+    if why:
+        ctx.violation("exhaustion", {"what": "C08 violated on the real client at identifier exhaustion: " + why,
+                                     "script": ["new", "cfg ka=0 cid=636c69 brokers=6c6f63616c686f7374", "run R", "reconnect <sid> 0 -", "pubn A 65535 1", "wdone <sid> ok", "pub X 1 0 74 58 -",
+                                                "rx <sid> <PUBACK id k>", "pub Y 1 0 74 59 -", "wdone <sid> ok"], "replay_hint": "feed to .build/h/h_client/*"})
+        return True
+    return False
+
+
 def run(ctx):
     standard_lean_phase(ctx)
     mdrv, mlog = build_mdrv()
@@ -168,8 +211,13 @@ def run(ctx):
                 a, _, _ = run_lines(hb, small); b, _, _ = run_lines(mdrv, small)
                 ctx.ties_broken.append("correspondence:pid lock-step differs (model vs implementation)")
                 ctx.notes.append({"pid_mismatch_script": small, "impl": a, "model": b})
+    found = exhaustion(ctx) or found
     fails = CC.run_scenarios(ctx, "C08", 200 if ctx.tier == "quick" else 5000, steps=60)
     found = CC.report(ctx, "C08", fails) or found
+    # the publish operation itself: real publish_send_op on a mock service, lock-step with Model/PubSend.lean, operation rules on its traces
+    import pubsend_check
+    found = pubsend_check.run(ctx, 1500 if ctx.tier == "quick" else 60000) or found
+    ctx.cov["rule"] += "; plus H-pubsend: scripts of async_send / async_wait_reply completions (ok, try_again, aborted; lost, undecodable, inadmissible and failing acknowledgements; cancellation) on the real publish_send_op QoS 1 and 2"
     report_broken_ties(ctx, found)
     if ctx.tier == "thorough" and not ctx.ties_broken:
         for m, msg in leanchecker(ctx.lean.get("modules", [])):
